@@ -22,7 +22,7 @@ CLAIMED = {
    note='Outside: check_data_update_allowed on a live DefaultSolver (constructing one needs AMD); end-to-end agreement of the following solve.' + _TB, design="DESIGN.md §3 C08, §6"),
  "C09": dict(text=_KANI + "Decides the presolver at the kernel level: which rows are dropped (all f64 incl. NaN/inf), the reduced A,b,cones, the restoration of s,z at the user's length with z=0 and s=bound, that the bound is captured at construction, and - through the REAL DefaultProblemData::new with an active presolver - that rows of other cones at or above the bound are capped, never dropped.",
    note='m=4, 8 cone layouts, enumerated A patterns/drop masks with symbolic values. Outside: that the reduced solve is a solve of the hand-reduced problem (IPM).' + _TB, design="DESIGN.md §3 C09, §6"),
- "C10": dict(text=_KANI + 'Decides on the REAL generic equilibrate over GF(13), for all data (one Ruiz sweep quick, two thorough), that the factors applied to P,q,A,b are exactly the recorded d,e,c, that dinv,einv are their inverses and that E is constant over non-scalar cones; at f64 that disabling leaves the data untouched, zero rows/columns stay unscaled, and (data = powers of two over 24 orders of magnitude) the cumulative d,e,c stay within [min,max].',
+ "C10": dict(text=_KANI + 'Decides on the REAL generic equilibrate over GF(13), for all data (one Ruiz sweep quick, two thorough), that the factors applied to P,q,A,b are exactly the recorded d,e,c, that dinv,einv are their inverses and that E is constant over non-scalar cones; at f64 that disabling leaves the data untouched and - thorough tier only, 20-40 min each - that zero rows/columns stay unscaled and (data = powers of two over 24 orders of magnitude) the cumulative d,e,c stay within [min,max].',
    note='Outside: cumulative bounds for general significands (rounded products); PSD.' + _TB, design="DESIGN.md §3 C10, §6"),
  "C11": dict(text=_KANI + "Decides the KKT assembly: every P, A, diagonal, Hs-block and second-order-cone sparse-expansion (u, v, D) entry sits at its recorded position with the user's value, index sets are disjoint and cover K, in both triangles; that the dense/sparse SOC block written into K is the operator mul_Hs (GF(7)); and that regularise/refactor/restore keeps the engine's copy in sync and the solver's copy unregularised (mirror engine).",
    note='n=2; enumerated P patterns, A patterns and cone layouts incl. [SOC5], [SOC2,SOC5], symbolic values. Sparse layouts go through the hook assemble_kkt_matrix_soc_store (validated natively by tv_kkt). Outside: GenPow expansion; the real LDL engines.' + _TB, design="DESIGN.md §3 C11, §6"),
